@@ -48,3 +48,12 @@ def r4_member_indexing(run, tree):
 
 
 RULES = [r1_gate, r2_single_writer, r3_one_index, r4_member_indexing]
+
+
+def t_history_space(run, tree):
+    run.rule("C06.T1", "thorough: every sequence of up to 3 dictionary operations on a fresh Datagroup (12 operations: set with matching / mismatching length, del, pop, clear, "
+             "update with good / bad items) agrees step by step with a reference dictionary with the insertion gate", "D7 fold of the Datagroup class over the complete space of short histories", "", floor=1)
+    cf.check_datagroup_history_space(run, tree, depth=3)
+
+
+THOROUGH_RULES = [t_history_space]
